@@ -34,6 +34,8 @@ def main():
                 fired[p] = (v, msgs)
         for p, (v, msgs) in fired.items():
             print("== %s fires (%d):" % (p, len(v)))
+            rules = sorted({l.split("replay=")[1].rsplit("/", 1)[1].split("_")[0] for l in v if "replay=" in l})
+            print("  rules: %s" % " ".join(rules))
             for m in msgs[:6]:
                 print("   ", m[:300])
         if not fired:
